@@ -32,6 +32,7 @@ def run(ctx):
     run.assumptions = ["member sources honour _composite_filters (C12.all-answers-filtered decides it for memory/filesystem)"]
     ctx.do(rule_member_forward)
     ctx.do(rule_dedup)
+    ctx.do(rule_navigation_over_union)
     ctx.do(rule_newest)
     ctx.do(rule_navigation)
     ctx.do(rule_delegation)
@@ -108,6 +109,60 @@ def rule_member_forward(ctx):
     run.floor(R, 9)
 
 
+def rule_navigation_over_union(ctx):
+    """Three clauses of "a composite answers as the de-duplicated union / navigation returns what a scan implies":
+      related-objects-over-the-union   the composite finds the related ids in ITS relationships and fetches them with ITS query;
+                                       asking each member for member.related_to() misses a relationship held by one member
+                                       whose related object is held by another
+      self-loop-once                   DataSource.relationships runs a source_ref query and a target_ref query; a relationship
+                                       from the object to itself matches both -- the second query excludes it (or the answer is
+                                       de-duplicated by (id, version))
+      newest-of-the-filtered           MemorySource.get returns the newest of the versions that pass the filters (as the
+                                       filesystem source does): taking the newest first and filtering afterwards makes the
+                                       answer depend on how versions are spread over members"""
+    run = ctx.run
+    prog = ctx.prog
+    R = "C18.navigation-over-union"
+    comp = prog.cls(DS + "::CompositeDataSource").methods.get("related_to")
+    if comp is None:
+        raise AnalysisError("anchor missing: CompositeDataSource.related_to")
+    per_member = [c for c in body_walk(comp.node) if isinstance(c, ast.Call) and isinstance(c.func, ast.Attribute)
+                  and c.func.attr == "related_to" and not (isinstance(c.func.value, ast.Call) and call_simple_name(c.func.value) == "super")
+                  and norm(c.func.value) != "self"]
+    union = [c for c in body_walk(comp.node) if isinstance(c, ast.Call) and isinstance(c.func, ast.Attribute) and (
+        (c.func.attr == "related_to" and isinstance(c.func.value, ast.Call) and call_simple_name(c.func.value) == "super")
+        or (c.func.attr in ("relationships", "query") and norm(c.func.value) == "self"))]
+    run.check(not per_member and bool(union), R, key(comp.module.relpath, comp.qualname, "related-objects-over-the-union"),
+              "the composite asks every member for ITS related objects: a relationship held by one member whose related object (or "
+              "another version of it) is held by another member yields nothing, although the composite's own relationships() and "
+              "query() see both", file=comp.module.relpath, line=comp.node.lineno, function=comp.qualname,
+              expected="navigate the union: super().related_to(...) / self.relationships + self.query", found=[short(c) for c in per_member])
+    rl = prog.cls(DS + "::DataSource").methods.get("relationships")
+    if rl is None:
+        raise AnalysisError("anchor missing: DataSource.relationships")
+    qs = [c for c in body_walk(rl.node) if isinstance(c, ast.Call) and isinstance(c.func, ast.Attribute) and c.func.attr == "query"
+          and norm(c.func.value) == "self"]
+    txt = norm(rl.node)
+    dedup = any(isinstance(r.value, ast.Call) and call_simple_name(r.value) == "deduplicate" for r in returns_of(rl))
+    excl = "Filter('source_ref', '!=', " in txt or "Filter('target_ref', '!=', " in txt
+    run.check(len(qs) >= 2 and (dedup or excl), R, key(rl.module.relpath, rl.qualname, "self-loop-once"),
+              "a relationship whose source and target are the same object matches both the source_ref and the target_ref query and "
+              "is returned twice (through a composite it comes back once)", file=rl.module.relpath, line=rl.node.lineno,
+              function=rl.qualname, expected="second query excludes source_ref == object when both run (or deduplicate())",
+              found=[short(c, 120) for c in qs])
+    mg = prog.cls("stix2.datastore.memory::MemorySource").methods.get("get")
+    if mg is None:
+        raise AnalysisError("anchor missing: MemorySource.get")
+    reads_latest = [x for x in body_walk(mg.node) if isinstance(x, ast.Attribute) and x.attr == "latest_version"]
+    via_all = [c for c in body_walk(mg.node) if isinstance(c, ast.Call) and isinstance(c.func, ast.Attribute) and c.func.attr == "all_versions"
+               and norm(c.func.value) == "self"]
+    run.check(not reads_latest and bool(via_all), R, key(mg.module.relpath, mg.qualname, "newest-of-the-filtered"),
+              "MemorySource.get takes the newest version first and applies the filters afterwards: with a filter that hides the "
+              "newest version it answers None where the filesystem source (and a composite whose members hold one version each) "
+              "answer the newest version that passes", file=mg.module.relpath, line=mg.node.lineno, function=mg.qualname,
+              expected="newest of self.all_versions(id, filters)", found=[short(x.parent) for x in reads_latest])
+
+
 def rule_dedup(ctx):
     run = ctx.run
     prog = ctx.prog
@@ -142,7 +197,8 @@ def rule_dedup(ctx):
                         ok = False
                 # the other reaching definition is the (empty) accumulator itself
                 for dn, val in others:
-                    if not (isinstance(val, ast.List) and not val.elts):
+                    # the (empty) accumulator, or the answer of the inherited / union-level method that is then de-duplicated
+                    if not ((isinstance(val, ast.List) and not val.elts) or isinstance(val, ast.Call)):
                         ok = False
             else:
                 ok = False
@@ -293,11 +349,15 @@ def rule_navigation(ctx):
     FL = bfl["fl"] if bfl else "?"
     qs = [c for c in body_walk(fi.node) if isinstance(c, ast.Call) and norm(c.func) == "self.query"]
     for q in qs:
-        fields = [x.args[0].value for x in ast.walk(q) if isinstance(x, ast.Call) and call_simple_name(x) == "Filter"
+        # the filter list may be built in a local first (tf = filters + [Filter(..)]; tf.append(..)): follow it
+        exprs = [q]
+        for nm_ in names_in(q) - {"self", FL, OID}:
+            exprs += [a_.value for a_ in body_walk(fi.node) if isinstance(a_, ast.Assign) and norm(a_.targets[0]) == nm_]
+        fields = [x.args[0].value for e_ in exprs for x in ast.walk(e_) if isinstance(x, ast.Call) and call_simple_name(x) == "Filter"
                   and x.args and isinstance(x.args[0], ast.Constant) and len(x.args) == 3 and norm(x.args[1]) == "'='"
                   and norm(x.args[2]) == OID]
         gc = [(norm(t), pol) for t, pol, _ in guard_chain(q)]
-        uses_base = FL in names_in(q)
+        uses_base = any(FL in names_in(e_) for e_ in exprs)
         for f in fields:
             table[f] = (gc, uses_base)
     want = {"source_ref": ([("not target_only", True)], True), "target_ref": ([("not source_only", True)], True)}
